@@ -1,5 +1,5 @@
 (* Pinned statements of C03: re-checked on every run. *)
-From SF Require Import Base.Prelude Gen.Generated Unsized.Types Unsized.Parse Unsized.Machine Unsized.Ops Unsized.Run Unsized.Proofs.EncodeParse Unsized.Proofs.Mem Unsized.Proofs.Notify Unsized.Proofs.Flat Unsized.Proofs.Layout Unsized.Proofs.Observe Unsized.Proofs.Path Unsized.Proofs.Context Unsized.Proofs.FocusOps Unsized.Proofs.NotifyInside Unsized.Proofs.Resize Unsized.Proofs.GenOps Unsized.Proofs.History Unsized.Proofs.Init Unsized.Proofs.History2 Unsized.Proofs.ExecTie Unsized.Proofs.History3 Unsized.Proofs.Enums Unsized.Proofs.InitKinds Unsized.Proofs.StringSet Properties.C03.
+From SF Require Import Base.Prelude Gen.Generated Unsized.Types Unsized.Parse Unsized.Machine Unsized.Ops Unsized.Run Unsized.Proofs.EncodeParse Unsized.Proofs.Mem Unsized.Proofs.Notify Unsized.Proofs.Flat Unsized.Proofs.Layout Unsized.Proofs.Observe Unsized.Proofs.Path Unsized.Proofs.Context Unsized.Proofs.FocusOps Unsized.Proofs.NotifyInside Unsized.Proofs.Resize Unsized.Proofs.GenOps Unsized.Proofs.History Unsized.Proofs.Init Unsized.Proofs.History2 Unsized.Proofs.ExecTie Unsized.Proofs.History3 Unsized.Proofs.Enums Unsized.Proofs.InitKinds Unsized.Proofs.StringSet Unsized.Proofs.SwapOps Properties.C03.
 
 Check (C03_all_ops_no_fault_in_any_history :
   forall ovf t h v s top pi0 v',
@@ -39,6 +39,13 @@ Check (C03_check_pointers_in_range :
   forall p lo hi cursor, lo <= hi -> fst (check_ptrs p lo hi cursor) = true -> Forall (fun a => lo <= a <= hi) (addrs p)).
 Check (C03_swapped_accessor_detected :
   forall p lo hi cursor a, lo <= hi -> In a (addrs p) -> (a < lo \/ hi < a) -> fst (check_ptrs p lo hi cursor) = false).
+Check (C03_swapped_element_accessor_reported_by_the_next_operation :
+  forall t s top ps it k a n q rs re x,
+    sub t top ps = Ok (TUList it k, PUList a n (Some q) true rs re) ->
+    rs <= re -> In x (addrs q) -> (x < rs \/ re < x) ->
+    (forall idx kind keys, ulist_insert t s top ps idx kind keys = Panic) /\
+    (forall st en, ulist_remove t s top ps st en = Panic) /\
+    ulist_clear t s top ps = Panic).
 
 Print Assumptions C03_all_ops_no_fault_in_any_history.
 Print Assumptions C03_no_fault_in_any_full_history.
@@ -52,3 +59,4 @@ Print Assumptions C03_realloc_limit.
 Print Assumptions C03_flat_pointer_assertions_hold.
 Print Assumptions C03_check_pointers_in_range.
 Print Assumptions C03_swapped_accessor_detected.
+Print Assumptions C03_swapped_element_accessor_reported_by_the_next_operation.
